@@ -13,7 +13,8 @@ LEVEL = 'exploration'
 
 ABS = {'A': '1.2.826.0.1.3680043.9.1', 'B': '1.2.826.0.1.3680043.9.22', 'C': '1.2.826.0.1.3680043.9.333',
        'Z': '1.2.826.0.1.3680043.9.9999'}
-TS = ['1.2.840.10008.1.2', '1.2.840.10008.1.2.1', '1.2.840.10008.1.2.2', '1.2.840.10008.1.2.5']
+# (the fourth is an official transfer syntax newer than the UID dictionary of the installed pydicom: UIDs are opaque)
+TS = ['1.2.840.10008.1.2', '1.2.840.10008.1.2.1', '1.2.840.10008.1.2.2', '1.2.840.10008.1.2.4.201']
 TS_LISTS = [list(p) for k in (1, 2, 3) for p in itertools.permutations(range(4), k)]      # 40 ordered lists
 
 ROLES = [(0, 1), (1, 0), (1, 1), (0, 0)]
@@ -69,6 +70,9 @@ def get_ae(served, supported, scu_rest=False):
     return _AES[key]
 
 
+VERSIONS = [1, 1, 3, 0x8001, 0xFFFF]        # protocol-version bit masks with bit 0 set
+
+
 def run_request(served, supported, contexts, probe, max_len=16384, called='SRV', calling='CLI',
                 app='1.2.840.10008.3.1.1.1', extra_subs=(), scu_rest=False):
     """contexts: [(id, abstract key, [ts indices])]; probe: context id that is not accepted (or None) to
@@ -78,8 +82,9 @@ def run_request(served, supported, contexts, probe, max_len=16384, called='SRV',
             'scu_rest': scu_rest}
     ae = get_ae(served, tuple(supported), scu_rest)
     sup = [TS[i] for i in supported]
+    salt = len(contexts) + len(served) + sum(supported) + (probe or 0)
     spec = fd.rq_spec([(cid, ABS[a], [TS[i] for i in tl]) for cid, a, tl in contexts], max_len, called, calling,
-                      app, extra_subs)
+                      app, extra_subs, ver=VERSIONS[salt % len(VERSIONS)], reserved=0x2A2A if salt % 3 == 0 else 0)
     expected = []
     for cid, a, tl in contexts:
         common = [TS[i] for i in tl if TS[i] in sup]
